@@ -232,6 +232,15 @@ impl Property for C14 {
             if let Err(e) = same_tree(&got, &want, Cmp::content()) {
                 return Verdict::Fail(format!("output {:?} reparses differently: {}", s, e));
             }
+            // independent reading of the same output
+            match crate::indep::xmltok::read_xml_document(&s) {
+                Ok(ind) => {
+                    if let Err(e) = same_tree(&ind, &want, Cmp::content()) {
+                        return Verdict::Fail(format!("output {:?} read by an independent reader differs: {}", s, e));
+                    }
+                }
+                Err(e) => return Verdict::Fail(format!("output {:?} is not well-formed for an independent reader: {}", s, e)),
+            }
             let re_cmp = if matches!(doc, ANode::Document(_)) { re } else { xot.document_element(re).unwrap() };
             if !xot.deep_equal(root, re_cmp) {
                 return Verdict::Fail(format!("deep_equal(original, reparsed) is false for output {:?}", s));
